@@ -28,7 +28,8 @@ THEOREMS = {
     "C01": _INERT + [("XV.Helpers.kw_defaults_length", _HELP), ("XV.Helpers.defaults_le_positional", _HELP), ("XV.Helpers.args_order", _HELP),
                      ("XV.Src.kept_no_trivia", _TS), ("XV.Src.kept_sublist", _TS), ("XV.Span.span_end_is_last_significant_token", "XonshVerif.Proofs.Span")],
     "C07": [("XV.WithMacro.with_macro_lines_verbatim", "XonshVerif.Proofs.WithMacro"), ("XV.WithMacro.step_facts", "XonshVerif.Proofs.WithMacro"), ("XV.Macro.loop_partition", _PM), ("XV.Macro.param_is_concat", _PM), ("XV.Macro.concat_is_source_slice", _PM)],
-    "C08": [("XV.Tz.all_tokens_are_source_slices", "XonshVerif.Properties.C08"), ("XV.Tz.fstring_tokens_are_source_slices", "XonshVerif.Properties.C08"), ("XV.Rx.m_endsWith", "XonshVerif.Proofs.RegexSuffix"), ("XV.Rx.m_fixedLen", "XonshVerif.Proofs.RegexSuffix"), ("XV.Tz.tokenizeLines_ft", "XonshVerif.Proofs.FstringText"),
+    "C08": [("XV.Tz.gaps_are_indentation_or_continuation", "XonshVerif.Properties.C08"), ("XV.Tz.between_consecutive_tokens", "XonshVerif.Properties.C08"), ("XV.Tz.tokenizeLines_g", "XonshVerif.Proofs.TokGaps"), ("XV.Rx.m_onlyChars", "XonshVerif.Proofs.RegexChars"),
+            ("XV.Tz.all_tokens_are_source_slices", "XonshVerif.Properties.C08"), ("XV.Tz.fstring_tokens_are_source_slices", "XonshVerif.Properties.C08"), ("XV.Rx.m_endsWith", "XonshVerif.Proofs.RegexSuffix"), ("XV.Rx.m_fixedLen", "XonshVerif.Proofs.RegexSuffix"), ("XV.Tz.tokenizeLines_ft", "XonshVerif.Proofs.FstringText"),
             ("XV.Tz.tokens_in_position_order", "XonshVerif.Properties.C08"), ("XV.Tz.tokenizeLines_ord", "XonshVerif.Proofs.TokOrder"), ("XV.Tz.scanLine_ord", "XonshVerif.Proofs.TokOrder"),
             ("XV.Tz.handleFstringProgs_ord", "XonshVerif.Proofs.TokOrder"), ("XV.Tz.tokens_are_source_slices", "XonshVerif.Properties.C08"), ("XV.Tz.splitLines_nonLastEndNL", "XonshVerif.Properties.C08"), ("XV.Tz.tokenizeLines_cov", "XonshVerif.Proofs.TokCover"),
             ("XV.Tz.scanLine_cov", "XonshVerif.Proofs.TokCover"), ("XV.Tz.nextStatement_cov", "XonshVerif.Proofs.TokCover"),
@@ -183,7 +184,7 @@ _AC = "XonshCerts.Actions"
 _DEAD = [("XVC.dead_cert", _D), ("XVC.dead_rules_expected", _D), ("XVC.dead_alternatives_expected", _D), ("XVC.shipped_xonsh_alternatives_inert", _D)]
 _RX_PROGRESS = [("XVC.regex_translation_complete", _R), ("XVC.pseudo_branches_progress", _R), ("XVC.pseudo_branch_names", _R), ("XVC.string_patterns_progress", _R), ("XVC.quotes_covered", _R)]
 CERTS = {
-    "C08": _RX_PROGRESS + [("XVC.fstring_scanners_min_length", _R), ("XVC.gen_fstr_len", _R), ("XVC.shipped_tokens_in_position_order", _R), ("XVC.fstring_scanners_end_with_delimiter", _R), ("XVC.gen_fstr_ends", _R), ("XVC.shipped_tokens_are_source_slices", _R)],
+    "C08": _RX_PROGRESS + [("XVC.fstring_scanners_min_length", _R), ("XVC.gen_fstr_len", _R), ("XVC.shipped_tokens_in_position_order", _R), ("XVC.fstring_scanners_end_with_delimiter", _R), ("XVC.gen_fstr_ends", _R), ("XVC.shipped_tokens_are_source_slices", _R), ("XVC.end_branch_only_continuation_chars", _R), ("XVC.gen_end_gap", _R), ("XVC.shipped_gaps_are_indentation_or_continuation", _R)],
     "C09": _RX_PROGRESS + [("XVC.longest_operator_first", _R), ("XVC.longest_operator_first_chars", _R), ("XVC.shipped_operator_alternation_is_maximal_munch", _R), ("XVC.tabsize_is_8", _R)],
     "C10": _RX_PROGRESS + [("XVC.gen_fstr_len", _R), ("XVC.gen_fstr_ends", _R), ("XVC.shipped_tokens_are_source_slices", _R), ("XVC.shipped_tokens_in_position_order", _R)],
     "C14": _RX_PROGRESS,
